@@ -19,6 +19,11 @@ from ..topo import Topo, REF
 from .c04 import model_keys
 
 ID = 'C07'
+# sub-checks added after the seeded-change waves (DESIGN.md sections 5 and 6)
+EXTENSIONS = [
+    'chained filters, by-kind dictionaries of filtered views',
+    'skip= with every naming form incl. dicts; unions of views; bare-string vs list names; names as tuple / set / frozenset; complement on restricted bases; coordinate-tuple form 2^22 from the origin; flatten() names each DOF once',
+]
 LEVEL = 'exploration'
 TECHNIQUE = "small-scope exhaustive enumeration (mesh states x catalogue x entity subsets x selector forms x name filters) vs closure model"
 LEVEL_TEXT = ("For every seed mesh (plus renumbered / locally reordered / refined variants) and every catalogue element incl. vector, "
